@@ -6,6 +6,7 @@ import RTV.Lemmas.NumCjkFamB
 import RTV.Lemmas.NumCjkFamC
 import RTV.Lemmas.NumCjkFamD
 import RTV.Lemmas.NumCjkFamE
+import RTV.Lemmas.NumCjkFamF
 /-!
 # C04 / C03, the rest of the CJK number parser (`CJKNumberParser`, recognizers_number/number/cjk_parsers.py)
 
@@ -22,9 +23,13 @@ regenerated as `RTV.Re.RE` terms and run by the backtracking matcher). Three kin
   `cjk_ordinal_zh`;
 * **finite families through the whole `parse`** with the real regexes (kernel evaluation): cardinals, ordinals, signs,
   dozens, spelled percentages, every 成 / 折 digit combination, fractions, digit strings; and the **negative theorems**:
-  the single-digit spelled decimals the code prints wrongly (`cjk_point_single_digit`: exactly 零点三, 零点六, 零点七,
-  一点七), `cjk_point_float_witness`, `cjk_digit_by_digit_witness` (`二〇二〇` is NOT read digit by digit),
-  `cjk_ja_percent_never_parses`.
+  `cjk_digit_by_digit_witness` (`二〇二〇` is NOT read digit by digit), `cjk_ja_percent_never_parses`;
+* **the digits after 点, two variants of the code** (`Cfg.pointFix`, probed by the correspondence): repaired
+  (findings/numcjk/point-value-float.diff) — `cjk_point_exact_repaired`: for EVERY integer part and EVERY digit string with at
+  most 15 significant digits in all, the value is the binary64 nearest to the written decimal (the exact `Decimal`,
+  converted once), and `cjk_point_single_digit_repaired` / `cjk_point_repaired_samples`: printed as written; as first
+  found — the labelled pre-fix regression `cjk_point_single_digit` (exactly 零点三, 零点六, 零点七, 一点七 of the 100
+  single-digit expressions print wrongly), `cjk_point_float_witness`.
 -/
 namespace RTV.NumCjk
 open RTV.Py RTV.Dec RTV.Num RTV.Re
@@ -83,12 +88,34 @@ theorem cjk_fraction_value (c : Cfg) (t i a b : Str) (parts : List Str) (xi xn x
 
 /-- **double** `a 点 b`: integer part `get_int_value(a)` plus (minus, when `a` is signed) the binary-float sum
 `get_point_value(b)` -/
-theorem cjk_double_value (c : Cfg) (t a b : Str) (rest : List Str) (ng : Bool) (i f v : PyN)
+theorem cjk_double_value (c : Cfg) (t a b : Str) (rest : List Str) (ng : Bool) (i v : PyN)
     (hr : found c c.doubleAndRound t = .ok false)
     (hs : split c c.point (replaceUnit c t) = .ok (a :: b :: rest)) (ha : a ≠ [])
-    (hneg : found c c.negSign a = .ok ng) (hi : getIntValue c a = .ok i) (hf : getPointValue c b = .ok f)
-    (hv : (if ng then PyN.sub i f else PyN.add i f) = .ok v) :
-    douParse c t = .ok (.n v, fmt c (.n v)) := douParse_point c t a b rest ng i f v hr hs ha hneg hi hf hv
+    (hneg : found c c.negSign a = .ok ng) (hi : getIntValue c a = .ok i) (hv : addPoint c i b ng = .ok v) :
+    douParse c t = .ok (.n v, fmt c (.n v)) := douParse_point c t a b rest ng i v hr hs ha hneg hi hv
+
+/-- the digits after the point, **as first found**: `int_value ± get_point_value(text)`, the binary-float sum of `0.1 * d` -/
+theorem cjk_point_value_first_found (c : Cfg) (h : c.pointFix = false) (i : PyN) (text : Str) (neg : Bool) :
+    addPoint c i text neg = (getPointValue c text).bind fun f => if neg then PyN.sub i f else PyN.add i f :=
+  addPoint_first_found c h i text neg
+
+/-- the digits after the point, **repaired** (`add_point_value`), full strength: for every configuration of the repaired
+variant, every integer part `w`, every non-empty string `text` of characters that `zero_to_nine_map` maps to plain
+digits `ns` (any length), if the written number `w.ns` has at most `c.p` (= 15) significant digits then the value is
+`float(D)` for the EXACT decimal `D = (w·10^L + ns) × 10^-L` — one correctly rounded conversion, nothing accumulated.
+(`repr` of the nearest binary64 of a decimal of at most 15 digits prints those digits — the classical `DBL_DIG` fact,
+not proved here: on strings see `cjk_point_single_digit_repaired`, `cjk_point_repaired_samples`, the exact pipeline
+oracle of every run and the `repr` correspondence.) -/
+theorem cjk_point_exact_repaired (c : Cfg) (hfx : c.pointFix = true) (w : Nat) (text : Str) (ns : List Nat)
+    (hr : Reads c text ns) (hne : text ≠ [])
+    (hd : ndigits (w * 10 ^ ns.length + digitsVal ns) ≤ c.p) :
+    addPoint c (.int (w : Int)) text false =
+      (ofOpt Err.overflow (F64.ofDec ⟨false, w * 10 ^ ns.length + digitsVal ns, -(ns.length : Int)⟩)).map PyN.flt :=
+  addPoint_repaired c hfx w text ns hr hne hd
+
+/-- the hypotheses are satisfiable in the regenerated Chinese configuration: `零五` reads as the digits 0, 5 -/
+example : Reads zhCfgFx [cjkDigit 0, cjkDigit 5] [0, 5] :=
+  ⟨by decide +kernel, by decide, by decide +kernel, by decide, trivial⟩
 
 /-- **double with a round unit** `1.5万`: `get_digit_value` of everything but the last character, scaled by the round
 value of the last character (inside `_get_digital_value`, in `Decimal` at precision 15, then `float(...)`) -/
@@ -238,10 +265,22 @@ theorem cjk_parse_ja :
   ⟨allBelow_spec ja_int_fam, allBelow_spec ja_ord_fam, allBelow_spec ja_neg_fam, allBelow_spec ja_dozen_fam,
    allBelow_spec ja_frac_fam⟩
 
+/-! ## the repaired point-value variant on strings (kernel evaluation of `zhCfgFx`) -/
+
+/-- **single-digit spelled decimals, repaired**: all 100 expressions `h点d` print the written decimal -/
+theorem cjk_point_single_digit_repaired : pointBadFx = [] := zh_point_fx
+
+/-- longer tails up to 15 significant digits (`零点零五`, `四点五六`, `一点一四`, `六十五点二二六〇七`, `三点一四一五九二六五三五八九七九` …)
+print the written decimal, also inside `百分之…`; the code as first found prints 8 of these 12 wrongly -/
+theorem cjk_point_repaired_samples :
+    fxSamples.all fxSampleOk = true ∧ (fxSamples.take 5).all fxPercentOk = true ∧ firstFoundBadSamples = 8 :=
+  ⟨zh_point_fx_samples, zh_point_fx_percent, zh_first_found_bad_samples⟩
+
 /-! ## negative theorems (each replayed on the implementation by `harness/lib/numcjkcorr.py`) -/
 
-/- full statement (fails): ∀ h d < 10, the resolution of `h点d` is the decimal `h.d`. -/
-/-- **single-digit spelled decimals**: of the 100 expressions `h点d` the code prints exactly four wrongly —
+/- full statement (fails for the code as first found; holds for the repaired variant: `cjk_point_single_digit_repaired`):
+   ∀ h d < 10, the resolution of `h点d` is the decimal `h.d`. -/
+/-- **pre-fix regression, single-digit spelled decimals** (`zhCfg`, `pointFix = false`): of the 100 expressions `h点d` the code prints exactly four wrongly —
 `零点三`, `零点六`, `零点七`, `一点七` (`get_point_value` computes `0.1 * d` in binary floating point and adds it to the
 integer part; finding `zh-cn:cjk-double:float-digits`) -/
 theorem cjk_point_single_digit : pointBad = [3, 6, 7, 17] := zh_point_bad
